@@ -350,6 +350,24 @@ def check(run):
             run.check(keeps, 'R11.resample', trp, twh[0][0].test, 'the strings are drawn in a batch of L rows: the loop stops as soon as ONE row is '
                       'non-zero, so a row that is still the identity string is kept (its partner cannot be made to anticommute with it, '
                       'and random_pauli returns a map that is not invertible)')
+        # every row that is redrawn gets its own draw: a single fresh row broadcast into all rejected rows makes them equal
+        from ..names import inlined as _inl
+        def _lead(c):
+            shp = [a for a in c.args if isinstance(a, (ast.Tuple, ast.List))] + [k.value for k in c.keywords if k.arg == 'size' and isinstance(k.value, (ast.Tuple, ast.List))]
+            return shp[0].elts[0] if shp and shp[0].elts else None
+        first_draw = [c for st, _ in walk(trp.node) if not any(st is x for x in ast.walk(twh[0][0])) for c in ast.walk(st)
+                      if isinstance(c, ast.Call) and norm(c.func).split('.')[-1] in ('randint', 'rand', 'randn', 'bernoulli')]
+        batch_const = bool(first_draw) and all(_lead(c) is not None and isinstance(_lead(c), ast.Constant) for c in first_draw)
+        for st2 in ast.walk(twh[0][0]):
+            if isinstance(st2, ast.Assign) and any(isinstance(x, ast.Name) and x.id == tfirst for t in st2.targets for x in ast.walk(t)):
+                for c in ast.walk(_inl(trp, st2.value)):
+                    if isinstance(c, ast.Call) and norm(c.func).split('.')[-1] in ('randint', 'rand', 'randn', 'bernoulli'):
+                        ld = _lead(c)
+                        if ld is None:
+                            run.undecided('R15.rows', trp, st2, 'shape of the fresh draw not readable')
+                        else:
+                            run.check(batch_const or not isinstance(ld, ast.Constant), 'R15.rows', trp, st2, 'the rejected rows are replaced by a draw of %s row(s) broadcast '
+                                      'into all of them: strings of one batch are then equal instead of independent' % norm(ld))
     else:
         run.undecided('R11.resample', trp, 'random_pair', 'batched draw / resampling loop of the port not found')
     fr = [st for st, _ in walk(rp.node) if isinstance(st, ast.Assign) and norm(st.value).replace(' ', '') == 'front(%s)' % first]
@@ -414,6 +432,7 @@ def check(run):
     run.floor('R11.coin', 3)
     run.floor('R7.mirror', 6)
     run.floor('R8.pivot', 2)
+    run.floor('R15.rows', 1)
     run.decide('fair draw sites, 2*bit signs, commutation-flip normal form, sampler structure with live un-rotation, fresh random map '
                'per call and never cached, rcc gate patterns')
     run.decline('validity of sampled tables by construction and uniformity over the Clifford group (distributional facts); '
